@@ -284,7 +284,32 @@ fn test(ctx: &Ctx, case: &PlanCase, st: &mut Stats) -> Verdict {
             };
             // (2) well-formedness
             if let Err((sig, msg)) = wellformed(&mini.catalog, &plan) {
-                return fail(format!("wellformed:{sig}:{sh}"), format!("{msg}\n  sql: {}\n  plan: {}", case.sql, plan));
+                // which single rules are responsible? (diagnosis only)
+                let mut blamed = vec![];
+                if sig.starts_with("ref-not-in-input") || sig.starts_with("join") {
+                    let mut names: Vec<String> = vec![];
+                    for (_, rules) in risinglight::planner::verif_rule_sets() {
+                        for r in rules {
+                            let n = r.name.as_str().to_string();
+                            if !names.contains(&n) {
+                                names.push(n);
+                            }
+                        }
+                    }
+                    for n in names {
+                        risinglight::verif::set_disabled_rules(vec![n.clone()]);
+                        let o3 = optimizer.clone();
+                        let b3 = bound.clone();
+                        if let Ok(p3) = std::panic::catch_unwind(AssertUnwindSafe(move || o3.optimize(b3))) {
+                            if wellformed(&mini.catalog, &p3).is_ok() {
+                                blamed.push(n);
+                            }
+                        }
+                    }
+                    risinglight::verif::set_disabled_rules(vec![]);
+                    let _ = take_panics();
+                }
+                return fail(format!("wellformed:{sig}:{sh}"), format!("{msg}\n  sql: {}\n  plan: {}\n  rules whose disabling gives a well-formed plan: {:?}", case.sql, plan, blamed));
             }
             // (3) output schema equals the bound query's
             let bt = std::panic::catch_unwind(AssertUnwindSafe(|| static_type(&mini.catalog, &bound))).ok().and_then(|r| r.ok());
